@@ -203,76 +203,4 @@ macro "ev_entries" : tactic => `(tactic|
   simp only [entryOf, List.getElem?_cons_zero, List.getElem?_cons_succ, splitsL, T.splitsBelow, T.leaves, leavesL,
     List.append_nil, T.isLeaf, List.isEmpty_cons, T.kids_node])
 
-macro "diff_split" xu:ident xv:ident : tactic => `(tactic|
-  (unfold DifferentSplit
-   first
-   | exact ⟨⟨$xu, by grind, by grind⟩, ⟨$xv, by grind, by grind⟩⟩
-   | exact ⟨⟨$xv, by grind, by grind⟩, ⟨$xu, by grind, by grind⟩⟩
-   | exact ⟨⟨$xu, by grind, by grind⟩, ⟨$xu, by grind, by grind⟩⟩
-   | exact ⟨⟨$xv, by grind, by grind⟩, ⟨$xv, by grind, by grind⟩⟩))
-
-/-- try child number `jj` of the new top as the place of the central branch -/
-macro "central_at" jj:num e:ident tu:ident tv:ident xu:ident xv:ident : tactic => `(tactic|
-  (refine oneBranchApart_kids ⟨T.leaves $tu ++ T.leaves $tv, $e, false⟩ $jj (by ev_entries; simp) (by ev_entries; perm_entries)
-     (by ev_entries) rfl (by ev_entries) ?_
-   ev_entries
-   diff_split $xu $xv))
-
-/-- the statement of the local fact for one configuration -/
-def LocalRS (path : List Nat) (d1 : NodeD) (cross : Bool) (isRoot : Bool) (p1 : Nat) (k1 : Kids) (j p2 : Nat) : Prop :=
-  (leavesL k1).Nodup →
-    ∀ S', applyLocal isRoot (newNNI path isRoot p1 j p2 cross) (.node d1 p1 k1) = some S' →
-      RS (.node d1 p1 k1) S'
-
-set_option maxHeartbeats 1000000 in
-theorem local_RS_root (path : List Nat) (d1 d2 : NodeD) (cross : Bool) (e eu ev : EdgeD) (tu tv : T)
-    (y z : EdgeD × T) (p1 p2 : Nat) (hp2 : p2 ≤ 2) :
-    LocalRS path d1 cross true p1 [(e, T.node d2 p2 [(eu, tu), (ev, tv)]), y, z] 0 p2 ∧
-    LocalRS path d1 cross true p1 [y, (e, T.node d2 p2 [(eu, tu), (ev, tv)]), z] 1 p2 ∧
-    LocalRS path d1 cross true p1 [y, z, (e, T.node d2 p2 [(eu, tu), (ev, tv)])] 2 p2 := by
-  obtain ⟨xu, hxu⟩ := List.exists_mem_of_ne_nil _ (leaves_ne_nil tu)
-  obtain ⟨xv, hxv⟩ := List.exists_mem_of_ne_nil _ (leaves_ne_nil tv)
-  obtain ⟨ey, ty⟩ := y
-  obtain ⟨ez, tz⟩ := z
-  have h2 : p2 = 0 ∨ p2 = 1 ∨ p2 = 2 := by omega
-  unfold LocalRS
-  rcases h2 with rfl | rfl | rfl <;> cases cross <;>
-    refine ⟨?_, ?_, ?_⟩ <;> intro hnd S' hS' <;> eval_local at hS' <;> subst hS' <;>
-    simp only [leavesL, T.leaves, List.append_nil, List.nodup_append, List.mem_append] at hnd <;>
-    unfold RS <;> simp only [T.kids_node] <;>
-    first
-    | central_at 0 e tu tv xu xv
-    | central_at 1 e tu tv xu xv
-    | central_at 2 e tu tv xu xv
-
-set_option maxHeartbeats 1000000 in
-theorem local_RS_nonroot (path : List Nat) (d1 d2 : NodeD) (cross : Bool) (e eu ev : EdgeD) (tu tv : T)
-    (y : EdgeD × T) (p1 p2 : Nat) (hp1 : p1 ≤ 2) (hp2 : p2 ≤ 2) :
-    LocalRS path d1 cross false p1 [(e, T.node d2 p2 [(eu, tu), (ev, tv)]), y] 0 p2 ∧
-    LocalRS path d1 cross false p1 [y, (e, T.node d2 p2 [(eu, tu), (ev, tv)])] 1 p2 := by
-  obtain ⟨xu, hxu⟩ := List.exists_mem_of_ne_nil _ (leaves_ne_nil tu)
-  obtain ⟨xv, hxv⟩ := List.exists_mem_of_ne_nil _ (leaves_ne_nil tv)
-  obtain ⟨ey, ty⟩ := y
-  have h1 : p1 = 0 ∨ p1 = 1 ∨ p1 = 2 := by omega
-  have h2 : p2 = 0 ∨ p2 = 1 ∨ p2 = 2 := by omega
-  unfold LocalRS
-  rcases h1 with rfl | rfl | rfl <;> rcases h2 with rfl | rfl | rfl <;> cases cross <;>
-    refine ⟨?_, ?_⟩ <;> intro hnd S' hS' <;> eval_local at hS' <;> subst hS' <;>
-    simp only [leavesL, T.leaves, List.append_nil, List.nodup_append, List.mem_append] at hnd <;>
-    unfold RS <;> simp only [T.kids_node] <;>
-    first
-    | central_at 0 e tu tv xu xv
-    | central_at 1 e tu tv xu xv
-
-/-- at every site, the split lists before and after `Apply` are one branch apart (the tip
-    names below the site being pairwise different) -/
-theorem local_RS {path : List Nat} {isRoot : Bool} {p1 : Nat} {k1 : Kids} {j : Nat}
-    {e : EdgeD} {d2 : NodeD} {p2 : Nat} {u v : EdgeD × T} (d1 : NodeD) (cross : Bool)
-    (s : Site path isRoot p1 k1 j e d2 p2 u v) : LocalRS path d1 cross isRoot p1 k1 j p2 := by
-  obtain ⟨eu, tu⟩ := u
-  obtain ⟨ev, tv⟩ := v
-  exact site_cases s (LocalRS path d1 cross)
-    (fun y z p1 hp2 => local_RS_root path d1 d2 cross e eu ev tu tv y z p1 p2 hp2)
-    (fun y hp1 hp2 => local_RS_nonroot path d1 d2 cross e eu ev tu tv y p1 p2 hp1 hp2)
-
 end Gotree.C17
